@@ -1,6 +1,9 @@
 use crate::chess::{move_struct::Move, Game, Score};
 use arrayvec::ArrayVec;
 use nohash_hasher::BuildNoHashHasher;
+#[cfg(daniel729_chess_verif)]
+use crate::verif_shim::search_prelude::*;
+#[cfg(not(daniel729_chess_verif))]
 use std::{
     collections::HashMap,
     sync::atomic::{AtomicBool, Ordering::Relaxed},
